@@ -37,7 +37,13 @@ _SIG = re.compile(r'signal (\d+)')
 _EXC = re.compile(r'exitcode (-?\d+)')
 
 
+class Propagated(Exception):
+    """raised by a user callback; listed in callbacks_propagate"""
+
+
 class PoolAdapter:
+    _rh_ended = False
+
     """consts: the Python-side copy of the TLC constants of the run being replayed."""
 
     def __init__(self, consts):
@@ -46,6 +52,7 @@ class PoolAdapter:
     # ------------------------------------------------------------------ reset
     def reset(self, st):
         c = self.c
+        self._rh_ended = False
         self.world = fw.World()
         fw.install(self.world)
         self.pool = bp.Pool(
@@ -135,8 +142,12 @@ class PoolAdapter:
              'tbad': 0, 'rel': False, 'late': False, 'lateack': False}
         soft, hard = act.get('soft', 0), act.get('hard', 0)
 
-        def cb(v, c=c):
+        def cb(v, c=c, j=j):
             c['cb'] += 1
+            if self.c.get('CbRaise') and j % 2 == 1:
+                # user code that fails with an exception the pool is told to let through
+                # (callbacks_propagate): it reaches whoever drives the pool; nothing else changes
+                raise Propagated(j)
 
         def ecb(e, c=c):
             c['ecb'] += 1
@@ -151,7 +162,8 @@ class PoolAdapter:
         h = self.pool.apply_async(task, (j,), callback=cb, error_callback=ecb,
                                   accept_callback=acb, timeout_callback=tcb,
                                   soft_timeout=soft or None, timeout=hard or None,
-                                  lost_worker_timeout=self.c['Grace'])
+                                  lost_worker_timeout=self.c['Grace'],
+                                  callbacks_propagate=(Propagated,) if self.c.get('CbRaise') else ())
         if expect_refused:
             if h is not None:
                 raise AssertionError('closed pool accepted a job')
@@ -239,7 +251,16 @@ class PoolAdapter:
                 else:
                     c['late'] = c['late'] or not c['rel']
             before = len(pool._outqueue.items)
-            pool.handle_result_event()
+            # (an exception that went through the result handler's generator has ended it: the next
+            #  call only notices that and starts a new one -- a wasted wake-up, as for an event loop)
+            for attempt in ((0, 1) if self._rh_ended else (0,)):
+                self._rh_ended = False
+                try:
+                    pool.handle_result_event()
+                except Propagated:
+                    self._rh_ended = True
+                if len(pool._outqueue.items) == before - 1:
+                    break
             if len(pool._outqueue.items) != before - 1:
                 raise AssertionError('handle_result_event did not consume exactly one message')
             self.outmeta.pop(0)
